@@ -56,7 +56,7 @@ func fieldStores(a *ssa.Alloc) map[string][]ssa.Value {
 
 // C19: third-party frames survive only for allow-listed services.
 func C19(p *core.Program, r *core.Report) {
-	r.Explanation = "H1: HasRootDomain's decision structure equals `parse the URL (after http: prefixing of scheme-relative values); host == root or host ends with \".\"+root` (decision-list conformance on the SSA of the function). H2: in every function of package embed, each construction of a webdoc.Embed is unreachable once the `true` edges of its HasRootDomain tests are removed (guard-cut), i.e. an embed is only produced for a URL that passed the host test. H3: the constant root arguments are exactly the documented allow-list and are paired with the matching Type literal; the id is computed from the same URL value that was tested. H5: Embed.GenerateOutput builds the placeholder as a DOM element whose data-type/data-id attributes are the embed's Type/ID and serialises it with dom.OuterHTML (escaping by the serializer). H4: iframe/object/embed fall into converter switch clauses that return false without StartNode, so an unrecognised frame is dropped."
+	r.Explanation = "H1: HasRootDomain's decision structure equals `parse the URL (after http: prefixing of scheme-relative values); host == root or host ends with \".\"+root` (decision-list conformance on the SSA of the function). H2: in every function of package embed, each construction of a webdoc.Embed is unreachable once the `true` edges of its HasRootDomain tests are removed (guard-cut), i.e. an embed is only produced for a URL that passed the host test. H3: the constant root arguments are exactly the documented allow-list and are paired with the matching Type literal; the id is computed from the same URL value that was tested. H5: Embed.GenerateOutput builds the placeholder as a DOM element whose data-type/data-id attributes are the embed's Type/ID and serialises it with dom.OuterHTML (escaping by the serializer). H4: iframe/object/embed fall into converter switch clauses that return false without StartNode, so an unrecognised frame is dropped. H6: the only wholesale copies of source elements outside tables/captions/embeds are Image/Figure elements, and what the image extractor stores there is pruned to img/source (shared with C04-V2/C05-S3), so no frame can ride along inside a picture."
 	r.NotCovered = "parsing of ids/params from path and query (string-valued behaviour), net/url's own host parsing, what surrounds the placeholder (C05/C09)."
 
 	// H1
@@ -257,4 +257,6 @@ func C19(p *core.Program, r *core.Report) {
 			r.Add("H4", "converter: "+tag+" is offered to the embed extractors before it is dropped", tbl.Pos, offered, "some decision path for the tag hands an extracted embed to the builder")
 		}
 	}
+	// ---- H6
+	checkPicturePruning(p, r, "H6")
 }
